@@ -472,6 +472,9 @@ func onlyFedByJSON(p *Prog, d *ast.FuncDecl) string {
 		if caller == fn || (caller.Parent() == fn) {
 			continue // recursion on sub-elements
 		}
+		if onlyCalledWithin(p, caller, fn) {
+			continue // a part of the function moved into a helper that nothing else calls: recursion through the helper
+		}
 		load, ok := a.(*ssa.UnOp)
 		if !ok || load.Op != token.MUL {
 			return fmt.Sprintf("%s passes a value that is not loaded from a json.Unmarshal target", FuncName(caller))
@@ -493,6 +496,34 @@ func onlyFedByJSON(p *Prog, d *ast.FuncDecl) string {
 		}
 	}
 	return ""
+}
+
+// onlyCalledWithin: g is a function of the module that is called (transitively) only from fn: every caller of g is fn, g
+// itself, or a function for which the same holds. Such a function has no data of its own: what it passes back to fn it got
+// from fn.
+func onlyCalledWithin(p *Prog, g, fn *ssa.Function) bool {
+	in := map[*ssa.Function]bool{}
+	var collect func(h *ssa.Function, depth int) bool
+	collect = func(h *ssa.Function, depth int) bool {
+		if h == fn || in[h] {
+			return true
+		}
+		if !inModule(h) || depth > 3 {
+			return false
+		}
+		in[h] = true
+		callers := p.callersOf(h)
+		if len(callers) == 0 {
+			return false
+		}
+		for _, e := range callers {
+			if e.Site == nil || !collect(e.Caller.Func, depth+1) {
+				return false
+			}
+		}
+		return true
+	}
+	return collect(g, 0)
 }
 
 func (p *Prog) declFunc(d *ast.FuncDecl) *ssa.Function {
